@@ -68,3 +68,11 @@ func WithOID(v oid.ID) Option {
 		c.obj = v
 	}
 }
+
+// WithRequestXHeaders sets the request to take X-headers from when the checked message
+// (e.g. binary object header) does not carry them itself.
+func WithRequestXHeaders(req Request) Option {
+	return func(c *cfg) {
+		c.xhdrReq = &requestXHeaderSource{req: req}
+	}
+}
